@@ -15,4 +15,22 @@ CHECKS = {
             {"part": "worker", "test": "TestWorker", "quick": {"checks": 4000, "shards": 6}, "thorough": {"checks": 300000, "shards": 16, "timeout": 3000}},
         ],
     },
+    "C07": {
+        "pkg": "c07",
+        "technique": "property-based differential testing (rapid): both combine twins vs a reference merge/compaction model",
+        "level_text": "Random queue layouts; the contexts, monitor ids and queue remainder produced by both combine implementations are compared with a reference model written from the property statement. Search, not proof.",
+        "level_note": "Trusted: the reference model in props/c07. The combined task is the head of the queue (as in production).",
+        "parts": [
+            {"part": "combine", "test": "TestCombine", "quick": {"checks": 20000, "shards": 4}, "thorough": {"checks": 1600000, "shards": 16, "timeout": 3000}},
+        ],
+    },
+    "C08": {
+        "pkg": "c08",
+        "technique": "property-based testing (rapid) of the informer trigger decision against an independent jq projection oracle",
+        "level_text": "Random per-object histories and filters through the real informer callbacks; emitted events compared exactly with the sequence the statement prescribes; snapshots compared with latest states. Search, not proof.",
+        "level_note": "Trusted: gojq for computing the projection in the oracle; single-output jq expressions only; watch events are delivered by the harness (client-go reflector not in the loop).",
+        "parts": [
+            {"part": "informer", "test": "TestInformer", "quick": {"checks": 5000, "shards": 8}, "thorough": {"checks": 300000, "shards": 16, "timeout": 3000}},
+        ],
+    },
 }
